@@ -32,7 +32,7 @@ def schemas(tier):
     if tier == "quick":
         want = ("h_reorder", "h_types64_be", "h_gaps", "h_counters_be", "h_extra", "h_refs")
         hs = [S for S in hs if S["package"] in want]
-    return catalogue.view_schemas() + hs + [traitsgen.c18_schema(), traitsgen.c18_fp_schema("float"), traitsgen.c18_fp_schema("double"), traitsgen.c18_text_schema(), traitsgen.c18_quote_schema()]
+    return catalogue.view_schemas() + hs + [traitsgen.c18_schema(), traitsgen.c18_fp_schema("float"), traitsgen.c18_fp_schema("double"), traitsgen.c18_text_schema(), traitsgen.c18_quote_schema(), traitsgen.c18_ctrl_schema()]
 
 
 # ------------------------------------------------------------ expected -----
